@@ -387,8 +387,14 @@ def _run(case, out, rig, server, cfg, variant, phone):
             rig.top.toLower(ProtocolTreeNode(t[0], dict(t[1])))
     if n_down:
         rig.sched.spawn("sender", sender)
+    big = case.get("big")
     for i in range(n_up):
         t = stanza(100 + i, "s")
+        if big and i == big[0] % n_up:
+            # a stanza far larger than one read from the socket (a media thumbnail, a long group list)
+            t = (t[0], t[1], bytes((i * 13 + k * 7) & 0xFF for k in range(251)) * (big[1] // 251 + 1))
+            t = (t[0], t[1], t[2][:big[1]])
+            out.label("server_stanza_of_%s" % (">=64KiB" if big[1] >= 65536 else "<64KiB"))
         server_sent.append(t)
         server.send_frame(R.encode(t))
     probs = rig.shuttle(chunker)
@@ -402,7 +408,7 @@ def _run(case, out, rig, server, cfg, variant, phone):
         if refused != ["ValueError"]:
             out.fail("order", "transport:oversized_stanza_not_refused", {"result": refused})
             return out
-    got_up = [(n.tag, dict(n.attributes), None) for n in rig.top.got[got_before:] if isinstance(n, ProtocolTreeNode)]
+    got_up = [(n.tag, dict(n.attributes), n.getData()) for n in rig.top.got[got_before:] if isinstance(n, ProtocolTreeNode)]
     if got_up != server_sent:
         out.fail("order", "transport:incoming_stanzas_differ", {"got": [g[1].get("id") for g in got_up],
                                                                 "sent": [s[1].get("id") for s in server_sent]})
@@ -470,11 +476,16 @@ def case_strategy():
                                                                         "pushname": st.one_of(st.none(), st.text(min_size=1, max_size=12))}))),
             "real_profile": draw(st.sampled_from([False, False, True])),
             "too_large": draw(st.sampled_from([0, 0, 0, 0, 2 ** 24 - 16, 2 ** 24 - 15, 2 ** 24])),
+            "big": draw(st.one_of(st.none(), st.none(), st.tuples(st.integers(0, 3), st.sampled_from([5000, 65000, 65536, 70000, 200000])).map(list))),
             "choices": draw(st.lists(st.integers(0, 5), min_size=n, max_size=n)),
         }
         if n == 0 and draw(st.booleans()):
             # context-bounded schedule: up to three preemption points
             c["preempt"] = draw(st.lists(st.tuples(st.integers(0, 400), st.integers(0, 3)).map(list), min_size=1, max_size=3))
+        if c["big"]:
+            # read sizes of real sockets (the dispatchers read 1024 bytes at a time), not byte by byte
+            c["chunks"] = draw(st.lists(st.sampled_from([512, 1024, 1024, 4096, 16384, 65535, 65536, 100000]), min_size=1, max_size=4))
+            c["after_server"] = max(1, c["after_server"])
         return c
     return build()
 
@@ -484,6 +495,12 @@ DAMAGE = ["ephemeral_flip", "ephemeral_short", "ephemeral_empty", "static_flip",
 
 
 def _enum_basic():
+    for variant in ("XX", "IK"):
+        for size in (65000, 70000):
+            for chunks in ([], [1024], [65536, 7]):
+                yield {"sub": "login", "variant": variant, "phone": "4915112345", "passive": False, "pushname": None, "edge": None,
+                       "chunks": chunks, "coalesced": 0, "after_server": 3, "after_client": 1, "prefix": [], "corrupt": False, "choices": [],
+                       "big": [1, size]}
     for variant in ("XX", "IK", "IK_stale"):
         for chunks in ([], [1], [7, 40]):
             for prefix in ([], ["before"], ["during"], ["during_partial"], ["after"], ["after_inside_delivery"], ["rejected_trailing"]):
